@@ -319,7 +319,7 @@ def doc_table(atom):
     rows = nsf_tables.ENERGY_DEPENDENT_TABLES.get((el.symbol, iso))
     if rows is None:
         return None
-    pts = sorted((math.sqrt(EF_DOC / (1000 * r[0])), complex(r[1], r[2])) for r in rows)
+    pts = sorted(((math.sqrt(EF_DOC / (1000 * r[0])), complex(r[1], r[2])) for r in rows), key=lambda p: p[0])
     return [p[0] for p in pts], [p[1] for p in pts]
 
 
